@@ -4,7 +4,7 @@ import math
 from hypothesis import given, strategies as st
 
 from bv import core, dims, env, gen
-from bv.model import UnitModel, dims_mul, dims_of_quantity, mag_of, relclose
+from bv.model import UnitModel, dims_mul, dims_of_quantity, log_mag_of, mag_of, relclose
 
 PID = "C04"
 RULE = (
@@ -134,6 +134,12 @@ class Checker:
                 ctx.cls("skipped_extreme_magnitude")
                 continue
             if not relclose(gm, mm, 1e-9):
+                # slope**exponent may over/underflow in the model's own arithmetic although the amount is moderate
+                # (barn**12): compare in log space before alarming
+                lm = log_mag_of(self.um, q, v)
+                if lm is not None and mm != 0 and lm[0] == (1 if mm > 0 else -1) and abs(lm[1] - math.log10(abs(mm))) < 1e-7:
+                    ctx.cls("magnitude_compared_in_log_space")
+                    continue
                 ctx.fail("magnitude_wrong", case, "%s: %s evaluates to %r = %r in base units, model %r (element %d)" % (what, kind, obj, gm, mm, k))
 
     def check_tree(self, case):
